@@ -13,6 +13,7 @@ import Mrpro.Model.Load
 import Mrpro.Model.KDataOps
 import Mrpro.Model.MoveData
 import Mrpro.Model.Dcf
+import Mrpro.Model.Dcf2d
 import Mrpro.Model.Autograd
 open Lean M M.Proto
 
@@ -421,6 +422,17 @@ def handle (j : Json) : Except String Json := do
       let (nk2, nk1) := shapeK kept
       pure (Json.mkObj [("order", natsJson (ordered.map (·.id))), ("n_k2", Json.num (JsonNumber.fromNat nk2)), ("n_k1", Json.num (JsonNumber.fromNat nk1)),
                         ("ignore_mask", Json.num (JsonNumber.fromNat ignoreMask))])
+  | "dcf_glue" =>
+      -- dcf_2d3d_voronoi around the Voronoi volumes: positions (one list of d rationals per sample) and the volumes of the unique positions
+      let pts ← j.getObjValAs? (Array (Array String)) "pts"
+      let ptsR ← pts.toList.mapM (fun p => match p.toList.mapM parseRat with | some c => pure c | none => throw "pts")
+      let vol ← getRats j "vol"
+      let (w, inv, cnt) := dcfGlueIdx ptsR vol
+      match w with
+      | some ws => pure (Json.mkObj [("status", Json.str "ok"), ("w", ratsJson ws), ("inverse", natsJson inv), ("counts", natsJson cnt),
+                                     ("unique", Json.arr ((uniquePts ptsR).map ratsJson).toArray)])
+      | none => pure (Json.mkObj [("status", Json.str "none"), ("inverse", natsJson inv), ("counts", natsJson cnt),
+                                   ("unique", Json.arr ((uniquePts ptsR).map ratsJson).toArray)])
   | "rpe_krad" =>
       let shifts ← getRats j "shifts"; let c ← getInt j "center"
       let k1 ← getNats j "k1"; let k2 ← getNats j "k2"
